@@ -117,7 +117,11 @@ func (r *Run) CheckUP4Image(prop, ctx, cause string, o UP4Opts) {
 	}
 	sessions := r.LiveSessions()
 
-	// ---- interfaces: N3 address and UE pool throughout
+	// ---- interfaces: N3 address and UE pool throughout (no session is involved:
+	// never attributed to a session's known-finding trigger)
+	saved := r.noTaintFallback
+	r.noTaintFallback = true
+	defer func() { r.noTaintFallback = saved }()
 	wantIf := map[string]bool{fmt.Sprintf("%d/32", ipU32(ip4(N3Addr))): false}
 	if ip, l, ok := parseCIDR(o.UEPool); ok {
 		wantIf[fmt.Sprintf("%d/%d", ip, l)] = false
@@ -133,6 +137,9 @@ func (r *Run) CheckUP4Image(prop, ctx, cause string, o UP4Opts) {
 		k := fmt.Sprintf("%d/%d", ipv, pl)
 		if _, ok := wantIf[k]; ok {
 			wantIf[k] = true
+			if sl, ok := v.param(e, "slice_id"); ok && sl != uint64(o.SliceID) {
+				bad(0, "interfaces", "wrong-slice-id", "interfaces entry %s/%d carries slice id %d, the agent is configured with slice id %d", u32IP(uint32(ipv)), pl, sl, o.SliceID)
+			}
 		} else {
 			bad(0, "interfaces", "unexpected-entry", "interfaces table holds %s/%d which is neither the N3 address nor the UE pool", u32IP(uint32(ipv)), pl)
 		}
@@ -143,6 +150,7 @@ func (r *Run) CheckUP4Image(prop, ctx, cause string, o UP4Opts) {
 		}
 	}
 
+	r.noTaintFallback = saved
 	// ---- expected objects
 	type sessULKey struct{ n3, teid uint64 }
 	wantSessUL := map[sessULKey]*CPSession{}
